@@ -124,6 +124,10 @@ func (c *Surveyor) onResponse(id uint32, payload []byte) error {
 func (c *Surveyor) onRequest(ssid message.Ssid, channel string, payload []byte) error {
 	// Get the query and reply node
 	ch := strings.Split(channel, "/")
+	if len(ch) < 2 {
+		return errors.New("Invalid query received")
+	}
+
 	query := ch[0]
 	reply, err := strconv.ParseInt(ch[1], 10, 64)
 	if err != nil {
